@@ -219,6 +219,21 @@ Proof.
   reflexivity.
 Qed.
 
+(* ---------------------------------------------------------------- 6. what & preserves *)
+(* the invariants under which == sets behave alike (SetsEqual: frozenset, constructor-built members, no member override) and the
+   premises of C05_and_comm hold again for the RESULT of &, so the theorems apply to sets built by any nesting of & over text-built sets *)
+Theorem and_invariants A B C : set_and A B = Some C ->
+  (fs_ok (ms A) -> fs_ok (ms B) -> fs_ok (ms C)) /\ (wf_set A -> wf_set B -> wf_set C) /\
+  (all_built A -> all_built B -> all_built C) /\ (plain A -> plain B -> plain C).
+Proof.
+  intros E. assert (M : ms C = fs_union (ms A) (ms B)) by (unfold set_and in E; destruct (SetModel.merge (ov A) (ov B)); inversion E; reflexivity).
+  split; [|split; [|split]].
+  - intros OA _. rewrite M. now apply fs_ok_union.
+  - now apply wf_set_and.
+  - unfold all_built. rewrite M, !Forall_forall. intros HA HB m Hm. apply in_fs_union in Hm as [Hm|Hm]; auto.
+  - unfold plain. rewrite M, !Forall_forall. intros HA HB m Hm. apply in_fs_union in Hm as [Hm|Hm]; auto.
+Qed.
+
 (* non-vacuity *)
 Definition c05more_check : bool :=
   match SpecifierSet [62;61;32;49;46;48;44;60;50] (Some true), SpecifierSet [60;32;50;32;44;44;62;61;49;46;48;44;60;50] (Some true) with
@@ -236,4 +251,5 @@ Print Assumptions set_conjunction_enabled.
 Print Assumptions text_order_dup_irrelevant_any_arg.
 Print Assumptions and_is_both_final_text.
 Print Assumptions and_str_is_concat.
+Print Assumptions and_invariants.
 Print Assumptions set_clause_spacing_irrelevant.
